@@ -318,6 +318,16 @@ class Effects:
                     # untyped receiver: record by method name so who-may rules stay conservative
                     if fn.attr in ("cancel", "release", "acquire", "clear", "pop", "popitem", "add", "update", "discard", "remove", "close", "set", "task_done"):
                         out.append(Effect(n, path, "maybe-" + fn.attr, "?", fn.attr))
+        if n.op == "exit_ctx" and isinstance(n.ast, ast.withitem):
+            ce = n.ast.context_expr
+            if isinstance(ce, ast.Call) and len(ce.args) == 1 and not ce.keywords and sc.callee(ce).name.endswith(("contextlib.closing", "contextlib.aclosing")):
+                # `with closing(x):` - leaving the block, however it is left, calls x.close()
+                tgt = ce.args[0]
+                ck = container_kind(self.an, sc.ty(tgt))
+                path = P.of(tgt)
+                if path is not None:
+                    kind = _METHOD_EFFECT.get((ck, "close")) if ck is not None else None
+                    out.append(Effect(n, path, kind or "maybe-close", ck or "?", "close (contextlib.closing)"))
         if n.op == "call" and isinstance(n.ast, ast.Call):
             # a bound `<Task>.cancel` handed to a call as a value (ExitStack.callback, call_soon, partial ...): the cancellation
             # is committed here - whoever received it runs it without the look-ups and checks that follow in this function
